@@ -32,6 +32,7 @@ import (
 	"github.com/nuts-foundation/go-stoabs"
 	"github.com/nuts-foundation/nuts-node/core"
 	nutsCrypto "github.com/nuts-foundation/nuts-node/crypto"
+	"github.com/nuts-foundation/nuts-node/crypto/jwx"
 	"github.com/nuts-foundation/nuts-node/events"
 	"github.com/nuts-foundation/nuts-node/network"
 	"github.com/nuts-foundation/nuts-node/network/dag"
@@ -384,6 +385,10 @@ func (n ambassador) findKeyByThumbprint(thumbPrint []byte, didDocumentAuthKeys [
 		}
 		if keyAsJWK == nil {
 			// verification method without publicKeyJwk (JWK() returns nil without error): can't be the signing key
+			continue
+		}
+		if err = jwx.ValidateECCoordinates(keyAsJWK); err != nil {
+			// calculating the thumbprint of such a key panics. It can't be the signing key: no signature verifies with it.
 			continue
 		}
 		documentThumbprint, err := keyAsJWK.Thumbprint(thumbprintAlg)
